@@ -189,22 +189,29 @@ def run_linear(ctx, idx0):
                             ctx.violation('kaczmarz', cfg, 'progress', rel=float(e))
                     # --- steepest descent / Newton with backtracking
                     f = S.L2NormSquared(Y).translated(b) * A + 0.1 * S.L2NormSquared(X)
-                    for sname, solver in (('steepest_descent', S.steepest_descent), ('newtons_method', S.newtons_method)):
-                        ls = S.BacktrackingLineSearch(f)
-                        r = trace.Recorder()
-                        x = X.element(rng.normal(size=n))
-                        v0 = f(x)
-                        try:
-                            solver(f, x, line_search=ls, maxiter=30, tol=1e-9, callback=r)
-                        except (NotImplementedError, odl.OpNotImplementedError):
-                            continue
-                        vals = [v0] + [f(X.element(it)) for it in r.iterates]
-                        ctx.ev('monotone')
-                        k = next((i for i in range(1, len(vals)) if vals[i] > vals[i - 1] + 1e-12 * abs(vals[i - 1])), None)
-                        if k is not None:
-                            ctx.violation(sname, cfg, 'monotone:objective-increased', at=k)
-                        if cc == 'well' and sname == 'steepest_descent':
-                            pass
+                    ls_kinds = (('default', lambda: S.BacktrackingLineSearch(f)),
+                                ('estimate_step', lambda: S.BacktrackingLineSearch(f, estimate_step=True)),
+                                ('tau=0.3;discount=0.1;alpha=2', lambda: S.BacktrackingLineSearch(f, tau=0.3, discount=0.1, alpha=2.0)),
+                                ('estimate_step;alpha=4', lambda: S.BacktrackingLineSearch(f, estimate_step=True, alpha=4.0, tau=0.7)))
+                    for (sname, solver), (lk, mkls) in itertools.product((('steepest_descent', S.steepest_descent), ('newtons_method', S.newtons_method)), ls_kinds):
+                        # one line-search object serves several runs from unrelated starting points (multi-start / sweeps):
+                        # whatever it remembers from the previous run must not decide the next one
+                        ls = mkls()
+                        lcfg = cfg if lk == 'default' else cfg + ';line-search=' + lk
+                        for run_no in range(3 if lk != 'default' else 1):
+                            r = trace.Recorder()
+                            x = X.element(rng.normal(size=n) * (1.0, 4.0, 0.3)[run_no])
+                            v0 = f(x)
+                            try:
+                                solver(f, x, line_search=ls, maxiter=30, tol=1e-9, callback=r)
+                            except (NotImplementedError, odl.OpNotImplementedError):
+                                break
+                            vals = [v0] + [f(X.element(it)) for it in r.iterates]
+                            ctx.ev('monotone')
+                            k = next((i for i in range(1, len(vals)) if vals[i] > vals[i - 1] + 1e-12 * abs(vals[i - 1])), None)
+                            if k is not None:
+                                ctx.violation(sname, lcfg + (';reused-object' if run_no else ''), 'monotone:objective-increased', at=k, run=run_no)
+                                break
                 except Exception as e:
                     ctx.violation('linear-solvers', cfg, 'raises:' + type(e).__name__, message=str(e)[:300])
     return idx
